@@ -226,6 +226,10 @@ func (k *c13) variants(code string, rng *rand.Rand) {
 		case 1:
 			s = " " + s + " "
 		}
+		// national decorations people write after the number
+		if cc == "CH" && rng.IntN(2) == 0 {
+			s = strings.TrimSpace(s) + []string{" MWST", " MwSt", " mwst", " TVA", " tva", " IVA", " Iva", " MWST.", " (MWST)", "-TVA", " IVA "}[rng.IntN(11)]
+		}
 		return s
 	}
 	for i := 0; i < 4; i++ {
